@@ -173,6 +173,12 @@ fn hash_fn(
             get_localised_id(inst, localised_value_id).hash(state);
             let inst = inst.get_instruction(context).unwrap();
             std::mem::discriminant(&inst.op).hash(state);
+            // The event metadata of a `log` is encoded into the emitted log, so it is part of
+            // the function's behaviour.
+            if let crate::InstOp::FuelVm(crate::FuelVmInstruction::Log { log_data, .. }) = &inst.op
+            {
+                log_data.map(|log_data| log_data.encoded()).hash(state);
+            }
             // Hash value inputs to instructions in one-go.
             for v in inst.op.get_operands() {
                 hash_value(
